@@ -289,4 +289,32 @@ example : establishLoop Backoff.nextBackoff 0 2 =
     [.attempt .retryable, .sleep (16 * msec), .attempt .retryable, .sleep (32 * msec), .attempt .ok] := by
   decide
 
+/-! ## What the environment sees: the rate of one retry loop
+
+The rate scenarios of the harness record the times at which the failing thing (ZooKeeper, hbase:meta,
+a regionserver) is asked. `t k` is the time of the k-th attempt of one loop. -/
+
+/-- the first `k` waits of the schedule, added up -/
+def cumulative (k : Nat) : Int := ((List.range k).map sched).sum
+
+/-- **One loop that waits at least the scheduled time between consecutive attempts cannot make
+its k-th attempt before the first k waits have passed** — the bound the driver checks on the
+attempt times of every rate scenario (`rate-above-schedule`), in addition to the gap-by-gap
+comparison. It is what "the request rate is bounded and decays" amounts to for the environment. -/
+theorem attempts_stay_under_schedule (t : Nat → Int) (h : ∀ k, sched k ≤ t (k + 1) - t k) (k : Nat) :
+    cumulative k ≤ t k - t 0 := by
+  induction k with
+  | zero => simp [cumulative]
+  | succ n ih =>
+    have hn := h n
+    have : cumulative (n + 1) = cumulative n + sched n := by
+      simp only [cumulative, List.range_succ, List.map_append, List.map_cons, List.map_nil,
+        List.sum_append, List.sum_cons, List.sum_nil, Int.add_zero]
+    omega
+
+/-- Two loops for one failing region, each on the schedule by itself (what the seeded change
+C17-m9 produces: a second establisher started 60 ms after the first), break that bound: the fourth
+attempt the environment sees comes at 76 ms, before the 16 + 32 + 64 = 112 ms one loop needs. -/
+example : cumulative 3 = 112 * msec ∧ (76 : Int) * msec < cumulative 3 := by decide
+
 end GV.Retry
